@@ -79,6 +79,14 @@ KINDS = {
     "str-substring-range": ([("decl", "s", None, S("abc"), ())], ("decl", "v", None, ("mcall", V("s"), "substring", [I(1), ("bin", "+", V("a"), I(8))]), ())),
     "str-insert-range": ([("decl", "s", None, S("abc"), ())], ("decl", "v", None, ("mcall", V("s"), "insert", [S("x"), ("bin", "+", V("a"), I(8))]), ())),
     "parse-radix": ([("decl", "s", None, S("12"), ())], ("decl", "v", None, ("mcall", V("s"), "parse_int_radix", [("bin", "+", V("a"), I(98))]), ())),
+    # every radix outside 2..36, for both radix parsers: 1, 0, negative, 37
+    "parse-radix-one": ([("decl", "s", None, S("12"), ())], ("decl", "v", None, ("mcall", V("s"), "parse_int_radix", [V("a")]), ())),
+    "parse-radix-zero": ([("decl", "s", None, S("12"), ())], ("decl", "v", None, ("mcall", V("s"), "parse_int_radix", [("bin", "-", V("a"), V("a"))]), ())),
+    "parse-radix-negative": ([("decl", "s", None, S("12"), ())], ("decl", "v", None, ("mcall", V("s"), "parse_int_radix", [("bin", "-", I(0), ("bin", "+", V("a"), V("a")))]), ())),
+    "parse-radix-37": ([("decl", "s", None, S("12"), ())], ("decl", "v", None, ("mcall", V("s"), "parse_int_radix", [("bin", "+", V("a"), I(36))]), ())),
+    "parse-bigint-radix-one": ([("decl", "s", None, S("12"), ())], ("decl", "v", None, ("mcall", V("s"), "parse_bigint_radix", [V("a")]), ())),
+    "parse-bigint-radix-zero": ([("decl", "s", None, S("12"), ())], ("decl", "v", None, ("mcall", V("s"), "parse_bigint_radix", [("bin", "-", V("a"), V("a"))]), ())),
+    "parse-bigint-radix-37": ([("decl", "s", None, S("12"), ())], ("decl", "v", None, ("mcall", V("s"), "parse_bigint_radix", [("bin", "+", V("a"), I(36))]), ())),
     "to-byte-conversion": ([("decl", "big", None, I(300), ())], ("decl", "v", None, ("mcall", ("bin", "+", V("big"), V("a")), "to_byte", []), ())),
     "to-int-conversion": ([("decl", "bb", "bigint", ("lit", "bigint", 2 ** 40), ())], ("decl", "v", None, ("mcall", ("bin", "+", V("bb"), V("a")), "to_int", []), ())),
     "pow-negative": ([], ("decl", "v", None, ("mcall", ("bin", "+", V("a"), I(1)), "pow", [("bin", "-", I(0), V("a"))]), ())),
@@ -90,6 +98,8 @@ KINDS = {
 # failures raised INSIDE a built-in method: the innermost entry of the trace is the native frame of that built-in
 NATIVE = {"str-insert-inside-char": "StrInsert", "str-insert-inside-wide-char": "StrInsert", "str-substring-end-inside-char": "StrSubstring", "str-substring-start-inside-char": "StrSubstring",
           "str-substring-inside-wide-char": "StrSubstring", "str-delete-start-inside-char": "StrDelete", "str-delete-inside-wide-char": "StrDelete",
+          "parse-radix-one": "StrParseIntRadix", "parse-radix-zero": "StrParseIntRadix", "parse-radix-negative": "StrParseIntRadix", "parse-radix-37": "StrParseIntRadix",
+          "parse-bigint-radix-one": "StrParseBigintRadix", "parse-bigint-radix-zero": "StrParseBigintRadix", "parse-bigint-radix-37": "StrParseBigintRadix",
           "overflow-abs-min": "GenericAbs", "str-delete-inside-char": "StrDelete", "str-split-inside-char": "StrSplit", "str-substring-range": "StrSubstring",
           "str-insert-range": "StrInsert", "parse-radix": "StrParseIntRadix", "to-byte-conversion": "GenericToByte", "to-int-conversion": "GenericToInt",
           "pow-negative": "GenericPow", "list-remove": "VecRemove"}
